@@ -67,19 +67,36 @@ func (c *Ctx) ruleWKTCheckRanges(rule string) {
 		// constants compared with each variable
 		consts := map[types.Object]map[int64]bool{secsObj: {}, nanosObj: {}}
 		onlyCmp := true
+		product := ""
 		walk(sw, func(n ast.Node) bool {
 			switch x := n.(type) {
 			case *ast.BinaryExpr:
 				switch x.Op {
 				case token.LSS, token.LEQ, token.GTR, token.GEQ, token.EQL, token.NEQ:
+					plain := false
 					for _, pr := range [][2]ast.Expr{{x.X, x.Y}, {x.Y, x.X}} {
 						if o := objOf(info, pr[0]); o == secsObj || o == nanosObj {
+							plain = true
 							if v, ok := constInt(info, pr[1]); ok {
 								consts[o][v] = true
 							} else {
 								onlyCmp = false
 							}
 						}
+					}
+					if !plain {
+						// an operand that computes with seconds/nanos instead of comparing them with a constant
+						walk(x, func(y ast.Node) bool {
+							if id, ok := y.(*ast.Ident); ok {
+								if o := info.Uses[id]; o == secsObj || o == nanosObj {
+									onlyCmp = false
+								}
+							}
+							if m, ok := y.(*ast.BinaryExpr); ok && (m.Op == token.MUL || m.Op == token.SHL) {
+								product = exprStr(m)
+							}
+							return true
+						})
 					}
 					return false
 				case token.LAND, token.LOR:
@@ -94,6 +111,10 @@ func (c *Ctx) ruleWKTCheckRanges(rule string) {
 			}
 			return true
 		})
+		if !onlyCmp && product != "" {
+			R.Bad(rule, sp.key+" ranges", P.Pos(sw), "the validity decision computes `"+product+"` on seconds and nanos: for in-range values (|seconds| up to 315576000000, |nanos| up to 999999999) the int64 product exceeds 2^63 and wraps, so its sign is arbitrary — valid values are rejected and values with opposite signs accepted")
+			continue
+		}
 		if !onlyCmp {
 			R.Unk(rule, sp.key+" shape", P.Pos(sw), "seconds or nanos are used other than in comparisons with constants: the finite case analysis is not complete")
 			continue
